@@ -96,6 +96,6 @@ func parseBag(s *slip.Scope, obj *flavors.Instance, value, path slip.Object, dep
 	if x == nil {
 		obj.Any = v
 	} else {
-		setAt(obj, x, v)
+		setAt(s, obj, x, v, depth)
 	}
 }
